@@ -6,6 +6,7 @@ import (
 	"go/parser"
 	"go/token"
 	"go/types"
+	"regexp"
 	"sort"
 	"strings"
 
@@ -29,6 +30,8 @@ import (
 // program as written. When every use of a helper was expanded, its declaration is blanked so that who-may-call /
 // who-may-write rules do not see a second, dead copy of the code.
 
+var inlNameRE = regexp.MustCompile(`__inl([0-9x]+)_`)
+
 type inlineHelper struct {
 	obj   types.Object // *types.Func, or the *types.Var a local closure is bound to
 	name  string       // display name
@@ -41,6 +44,7 @@ type inlineHelper struct {
 	to    token.Pos
 	pkg   *packages.Package
 	file  *ast.File
+	waits bool // its body still calls another helper: expanded in a later round
 	uses  int // references seen in the package
 	done  int // references expanded
 }
@@ -148,6 +152,29 @@ func inlineRound(pkgs []*packages.Package, readFile func(abs string) ([]byte, er
 				delete(helpers, o)
 			}
 		}
+		// a helper whose own body still calls another helper waits for a later round: its text must first receive
+		// that expansion, otherwise the copy placed in the caller would keep a call to a declaration that is dropped
+		for _, h := range helpers {
+			ast.Inspect(h.body, func(n ast.Node) bool {
+				call, ok := n.(*ast.CallExpr)
+				if !ok {
+					return true
+				}
+				var id *ast.Ident
+				switch f := call.Fun.(type) {
+				case *ast.Ident:
+					id = f
+				case *ast.SelectorExpr:
+					id = f.Sel
+				}
+				if id != nil {
+					if o := p.TypesInfo.Uses[id]; o != nil && o != h.obj && helpers[o] != nil {
+						h.waits = true
+					}
+				}
+				return true
+			})
+		}
 		splices := map[*ast.File][]splice{}
 		addImports := map[*ast.File][]string{}
 		for _, f := range p.Syntax {
@@ -250,7 +277,9 @@ func notInlinable(body *ast.BlockStmt, sig *types.Signature) string {
 				why = "uses a defer that cannot be moved to the end of the expansion"
 			}
 		case *ast.LabeledStmt:
-			why = "uses labels"
+			if !strings.HasPrefix(x.Label.Name, "__inl") { // labels of an earlier expansion are renamed per copy
+				why = "uses labels"
+			}
 		case *ast.BranchStmt:
 			if x.Tok == token.GOTO {
 				why = "uses goto"
@@ -343,7 +372,7 @@ func (ix *inliner) helperOf(call *ast.CallExpr) *inlineHelper {
 		return nil
 	}
 	h := ix.helpers[o]
-	if h == nil || o == types.Object(ix.caller) {
+	if h == nil || h.waits || o == types.Object(ix.caller) {
 		return nil
 	}
 	if h.lit != nil && h.lit.Pos() <= call.Pos() && call.End() <= h.lit.End() {
@@ -767,6 +796,20 @@ func (ix *inliner) expansion(call *ast.CallExpr, h *inlineHelper, nres int, temp
 	}
 	sb.Write(hsrc[pos:bTo])
 	sb.WriteString("\nbreak " + label + "\n}")
+	// names generated by an earlier round inside the copied body get a prefix of this copy (two copies of the same
+	// helper in one function must not declare the same label)
+	if body := sb.String(); strings.Contains(string(hsrc[bFrom:bTo]), "__inl") {
+		cur := fmt.Sprint(*ix.counter)
+		renamed := inlNameRE.ReplaceAllStringFunc(body, func(m string) string {
+			n := inlNameRE.FindStringSubmatch(m)[1]
+			if n == cur {
+				return m
+			}
+			return "__inl" + cur + "x" + n + "_"
+		})
+		sb.Reset()
+		sb.WriteString(renamed)
+	}
 	if len(deferred) > 0 {
 		// the deferred calls use the helper's own names (receiver, parameters): re-bind them after the body
 		if len(names) > 0 && anyNew {
